@@ -771,6 +771,9 @@ class Engine:
             except Unsupported as exc:
                 self.undecided.append((case_id, "unsupported: %s" % exc))
             except Exception as exc:  # noqa: BLE001
+                bug = sym.scenario_bug(exc)
+                if bug is not None:
+                    raise sym.EngineError("defect in the contract text: " + bug) from exc
                 why = sym.binding_error(exc)
                 if why is not None:
                     # the harness no longer fits the code (renamed/removed private function, changed private signature):
@@ -807,6 +810,9 @@ class Engine:
         except InfeasiblePath:
             return T, "skipped"
         except Exception as exc:  # noqa: BLE001
+            bug = sym.scenario_bug(exc)
+            if bug is not None:
+                raise sym.EngineError("defect in the contract text: " + bug) from exc
             why = sym.binding_error(exc)
             if why is None:
                 raise
